@@ -278,6 +278,10 @@ def run(model: RepoModel, rep, tier: str):
     from .c07 import _r4_keyword_order
     _r4_keyword_order(model, rep, "C12.R5")
     _r6_names_and_module_tree(model, rep)
+    from .c07 import check_base_order
+    rep.rule("C12.R7", "re-ordering independent top-level class definitions changes nothing: the bases of a class are visited in the order of "
+                       "its class statement, never in the order of the class ids", 1)
+    check_base_order(model, rep, "C12.R7")
 
 
 def _r6_names_and_module_tree(model: RepoModel, rep):
